@@ -79,7 +79,7 @@ def cases(draw, name, tier):
     # "the same data" may be given as list, one-shot iterator or async generator
     if name != "iter_sentinel":
         for s in case["srcs"]:
-            s["fl"] = draw(st.sampled_from(["agen", "agen", "list", "iter"]))
+            s["fl"] = draw(st.sampled_from(["agen", "agen", "list", "iter", "seq", "reiter", "areiter", "aproxy"]))
         for s in case["srcs"]:
             if s.get("alias") is not None and case["srcs"][s["alias"]]["fl"] == "list":
                 case["srcs"][s["alias"]]["fl"] = "iter"  # aliasing is about one-shot iterators
